@@ -11,7 +11,7 @@ from props import C08 as c08
 
 ID = 'C09'
 LEVEL = 'proof'
-LEAN_TARGETS = ['BareProofs.C09']
+LEAN_TARGETS = ['BareProofs.C09', 'BareProofs.C09Term']
 DRIVER = 'drv_c01'
 DRIVER_ROOT = 'Drv.C01'
 GEN = ['Consts']
@@ -23,11 +23,29 @@ THEOREMS = [
     'C09.fuel_mono', 'C09.fuel_mono_execM', 'C09.limited_needs_no_more_fuel', 'C09.no_infinite_run_partial',
     'C09.unknown_label_exact', 'C09.own_budget', 'C09.own_budget_states', 'C09.own_budget_session',
     'C09.goodM', 'C09.fuelMono', 'C09.simM',
+    # BareProofs/C09Term.lean (+ C09TermLemmas, C09TermHosts): "no script can run forever" under an explicit host hypothesis
+    'C09.presM', 'C09.termM',
+    'C09.no_infinite_run', 'C09.no_infinite_run_execM', 'C09.no_infinite_run_call', 'C09.no_infinite_run_includes',
+    'C09.no_infinite_run_result', 'C09.no_infinite_run_of_rank', 'C09.applyHost_rank',
+    'C09.LibParam.lib_q', 'C09.implStateOk_sound', 'C09.libStateOk_sound',
+    'C09.no_infinite_run_hostImpl', 'C09.no_infinite_run_hostLib',
+    'C09.Counter.loopHost_runs_forever', 'C09.Counter.loopHost_not_wf',
+    'C09.Counter.hostImpl_runs_forever', 'C09.Counter.hostImpl_not_wf',
+    'C09.Counter.hostLib_runs_forever', 'C09.Counter.hostLib_not_wf',
 ]
 ASSUMPTIONS = [
-    'no_infinite_run is proved as no_infinite_run_partial: statement STARTS are bounded by L+1 for every host; "some fuel suffices" is '
-    'not provable for an arbitrary abstract host (a host library tree may call the same library function back for ever without '
-    'starting a statement - only the model fuel ends that); the Python library has no such function',
+    'no_infinite_run ("for L > 0 some fuel suffices, and every larger one": C09Term.lean) is proved for every host that satisfies the '
+    'explicit hypothesis HostWF (an invariant on values/worlds preserved by every host operation + a rank of host calls that strictly '
+    'decreases along call-backs; RankWF is the invariant-free special case) from every admissible start state; it is FALSE without the '
+    'hypothesis (Counter.loopHost_runs_forever) and it is FALSE for the two concrete hosts on all states: the 4-statement script '
+    'a = arrayNew(); p = systemPartial(arrayIndexOf, a); arrayPush(a, p); arrayIndexOf(a, p) is out of fuel for every fuel '
+    '(Counter.hostImpl_runs_forever / hostLib_runs_forever: arrayIndexOf calls p([p]) = arrayIndexOf(a, p) for ever, no statement '
+    'starts) - CPython ends exactly this run with RecursionError, which the call wrapper turns into null (checked: r = null, '
+    'statementCount 6); the recursion limit is not in the model.  For HostImpl.host / HostLib.hostLib the theorem is therefore proved '
+    'from the start states that pass the decidable check implStateOk m / libStateOk m: m = true - no systemPartial function value and '
+    'no partial application anywhere in globals/heap; m = false - no arrayIndexOf function value anywhere in globals/heap/partial table '
+    'and every partial refers to earlier partials only (no dangling reference); one of the two restrictions is necessary '
+    '(Counter.hostImpl_not_wf).  no_infinite_run_partial (statement STARTS bounded by L+1, every host, every state) stays as it was',
     'limit_prefix is stated for any preorder on the abstract world that the host only extends (HostExt) and instantiated for the log of '
     'the concrete driver host; that the GLOBALS at an abort are the unlimited run\'s globals at that point is checked on the '
     'implementation only (per-statement snapshots through logFn in fully-logged programs)',
@@ -38,18 +56,29 @@ ASSUMPTIONS = [
     'numbers in generated programs are exactly representable (additions of small integers only in fully-logged programs, so that an '
     'endless loop cannot leave the exactly representable range); "-0" in log lines and in strings of the result / the globals is compared as "0" '
     '(the rational host has no negative zero)',
-    'included files live in one flat virtual directory, so the URL an include resolves to is the URL it names (resolution is C17)',
+    'included files live in one flat virtual directory, so the URL an include resolves to is the URL it names (resolution is C17); in the '
+    'family of repeated includes (rinc) the host sets systemPrefix (absent, empty, a directory, a file in a directory): system files '
+    'live in the directory of the prefix, every file of a case has its own base name and only plain relative names are used; the '
+    'reference interpreter resolves <x> to prefix-directory + x and every other name to the directory of the running file, the Lean '
+    'machine is given the file map by base name (its default resolve is the written name)',
+    'the script a = arrayNew(); p = systemPartial(arrayIndexOf, a); arrayPush(a, p); r = arrayIndexOf(a, p); return r (a library call-back '
+    'recursion that starts no statement) is run on the implementation only, under limits 0, 4, 5, 100 and on options objects with a '
+    'history: it must stop (CPU watchdog) and satisfy the budget oracles with N = 5; it is kept out of the model comparison (no '
+    'recursion limit in the model: Counter.hostImpl_runs_forever)',
     'DEFAULT_MAX_STATEMENTS (1e9, used when the option is absent) is only checked to be positive; runs of that length are not executed '
     '(options without a maxStatements key are run for programs known to stop and must behave like maxStatements = 0)',
     'runs on an options object with a history are compared with the Lean answer for count = 0 (the shared driver builds the start state '
     'with count := 0; that execute gives the same answer for every other start counter is C09.own_budget, proved by rfl); runs that start '
     'from globals an earlier run left behind (script function values) are checked with the implementation-side oracles only',
 ]
-TRUSTED = ['reference statement interpreter with its own statement counter (props/C08.py RefStatements + includes), the fully-logged '
-           'program generator, the logFn snapshot probe and the options-history driver (run_impl with a prep: earlier runs, copied options, stale '
+TRUSTED = ['reference statement interpreter with its own statement counter (props/C08.py RefStatements + includes and their name resolution), '
+           'the static statement count of straight-line programs, the fully-logged '
+           'program generator (an include / function statement is announced by a log statement of its own in the rinc family), '
+           'the logFn snapshot probe and the options-history driver (run_impl with a prep: earlier runs, copied options, stale '
            'counter; the reference run on a brand-new options dict) in harness/props/C09.py (the property oracles)']
 
-FULLY = ('fl', 'data', 'session')     # families of fully-logged programs
+FULLY = ('fl', 'data', 'session', 'rinc')     # families of fully-logged programs (globals snapshot at every log line; started
+                                              # statements are counted through the log where case['nfun'] is not None)
 CAP = 3000                      # "unlimited-ish": a program that starts more than CAP statements counts as non-terminating
 CORPUS = os.path.join(os.path.dirname(os.path.dirname(os.path.abspath(__file__))), 'corpus', 'C09.jsonl')
 EXCEEDED = re.compile(r'^Exceeded maximum script statements \((\d+)\)$')
@@ -64,9 +93,10 @@ EXCEEDED = re.compile(r'^Exceeded maximum script statements \((\d+)\)$')
 # ---------------------------------------------------------------------------------------------------------------------
 
 class FL:
-    def __init__(self, rng, prefix='t', allow_nonterm=False):
+    def __init__(self, rng, prefix='t', allow_nonterm=False, ivar='i'):
         self.rng = rng
         self.prefix = prefix
+        self.ivar = ivar              # stem of the loop variables (files that run inside each other's loops use different stems)
         self.ntag = 0
         self.nlab = 0
         self.nvar = 0
@@ -130,7 +160,7 @@ class FL:
             elif r < 0.78:
                 self.kinds.add('loop')
                 self.nvar += 1
-                i = f'i{self.nvar}'
+                i = f'{self.ivar}{self.nvar}'
                 lt, ld = self.label('LT'), self.label('LD')
                 endless = self.allow_nonterm and not in_func and rng.random() < 0.08
                 if endless:
@@ -295,6 +325,251 @@ def partial_case(rng):
             'tags': sorted(tags | gm.kinds)}
 
 
+# ---------------------------------------------------------------------------------------------------------------------
+# the SAME include executed several times in one run (family 'rinc')
+#   host:   systemPrefix absent / '' / a directory / a file in a directory (system files live in that directory, plain files
+#           in the root; every file has its own base name, so the model's flat file map is the map by base name)
+#   files:  1-3 library scripts u1..u3 (system <uN.bare> or plain 'uN.bare'; empty, comment-only, fully-logged statements, a
+#           function + call, an early return; a library may include an earlier one = diamond), wrappers wa/wb that include them
+#   main:   1-2 shapes, each executing the hot include 2+ times with statements in between
+#   every statement logs first (FL); an include statement and a function statement cannot, so each is preceded by the statement
+#   systemLog('>'): started statements = log lines + lines '>' (case['premarks']; not with while/for, whose loop statements do not log)
+# ---------------------------------------------------------------------------------------------------------------------
+
+RINC_PREFIXES = [None, '', '', 'sys/', 'sys/', 'sys/', 'lib/x/', 'sys/index.bare']
+RINC_SHAPES = ['straight', 'wrappers', 'diamond', 'jump-loop', 'while', 'for', 'function', 'callback', 'recursion', 'same-statement',
+               'tail-empty']
+PRE = "systemLog('>')"            # logged right before every statement that cannot log by itself (include, function)
+RINC_EMPTY = ['', '\n', '# nothing here yet\n\n# (placeholder for site-specific overrides)\n', '    \n# one comment']
+
+
+def sys_dir(prefix):
+    return '' if not prefix else prefix[:prefix.rfind('/') + 1]
+
+
+def rinc_case(rng, shapes=None, prefix='?'):
+    if prefix == '?':
+        prefix = rng.choice(RINC_PREFIXES)
+    sysdir = sys_dir(prefix)
+    files, kinds = {}, set()
+    libs = []                    # (include line, system?, 'empty' | 'code')
+
+    def inc(*which, pad=''):
+        """one include statement (consecutive include lines are ONE statement) with its log line"""
+        return [pad + PRE] + [pad + lib[0] for lib in which]
+
+    def add_lib(name, system, empty):
+        ix = len(libs) + 1
+        gen = FL(rng, prefix=f'u{ix}x', ivar=f'j{ix}x')
+        out = []
+        if empty:
+            text = rng.choice(RINC_EMPTY)
+            kinds.add('empty-include' if not text.strip() else 'comment-only-include')
+        else:
+            gen.block(out, '', 2, ['a', 'b'], False, rng.randint(1, 3))
+            if rng.random() < 0.5:
+                out.insert(rng.randint(0, len(out)), f'uc = {gen.wrap("uc + 1")}')
+            if rng.random() < 0.2:
+                out += [PRE, f'function fu{ix}(v):', f"    return {gen.wrap('v + 1')}", 'endfunction', f'z = {gen.wrap(f"fu{ix}(uc)")}']
+                kinds.add('function-in-include')
+            if rng.random() < 0.12:
+                out += [f'return {gen.wrap("1")}', gen.mark()]            # return ends only the included script
+                kinds.add('include-return')
+            # a library that includes an earlier one (diamond); a system file names its neighbours, a root file names root files
+            cands = [lib for lib in libs if lib[1] or not system or sysdir == '']
+            if cands and rng.random() < 0.4:
+                pos = rng.randint(0, len(out))
+                while pos > 0 and out[pos - 1] == PRE:
+                    pos -= 1
+                out[pos:pos] = inc(rng.choice(cands))
+                kinds.add('lib-includes-lib')
+            text = '\n'.join(out)
+            kinds.update(gen.kinds)
+        files[(sysdir if system else '') + name] = text
+        lib = (f'include <{name}>' if system else f"include '{name}'", system, 'empty' if empty else 'code')
+        libs.append(lib)
+        return lib
+
+    for ix in range(rng.choice([1, 1, 2, 2, 3])):
+        add_lib(f'u{ix + 1}.bare', rng.random() < 0.7, rng.random() < 0.15)
+    hot = rng.choice([lib for lib in libs if lib[1]] or libs)            # the include that is executed again and again
+    kinds.add('hot-system' if hot[1] else 'hot-plain')
+    if hot[1]:
+        kinds.add('prefix:' + ('none' if prefix is None else 'flat' if sysdir == '' else 'dir'))
+    gm = FL(rng, prefix='tm')
+    head, out = [], []
+    names = ['a', 'b', 'uc']
+
+    def between(lo=1):
+        nonlocal names
+        r = rng.random()
+        if r < 0.5:
+            for _ in range(rng.randint(lo, 3)):
+                out.append(gm.mark())
+        elif r < 0.8:
+            out.append(f'a = {gm.wrap(gm.value(names))}')
+            out.append(gm.mark())
+        else:
+            names = gm.block(out, '', 2, names, False, rng.randint(max(lo, 1), 2))
+
+    def wrapper(name, tag, incs, tail):
+        gen = FL(rng, prefix=tag, ivar=tag + 'i')
+        body = []
+        if rng.random() < 0.6:
+            body.append(gen.mark())
+        for pos, lib in enumerate(incs):
+            body += inc(lib)
+            if pos + 1 < len(incs) or not tail:
+                body.append(gen.mark())
+        files[name] = '\n'.join(body)
+        return (f"include '{name}'", False, 'code')
+
+    def other():
+        return rng.choice(libs)
+
+    for shape in (shapes or rng.sample(RINC_SHAPES, rng.choice([1, 1, 2]))):
+        kinds.add('shape:' + shape)
+        if rng.random() < 0.6:
+            between()
+        if shape == 'straight':
+            for _ in range(rng.choice([2, 2, 3])):
+                out += inc(hot)
+                between()
+        elif shape == 'wrappers':                    # the same include from two different included scripts
+            wa = wrapper('wa.bare', 'wa', [hot], rng.random() < 0.3)
+            wb = wrapper('wb.bare', 'wb', [hot] if rng.random() < 0.7 else [other(), hot], rng.random() < 0.3)
+            out += inc(wa)
+            between()
+            out += inc(wb)
+            if rng.random() < 0.3:
+                between()
+                out += inc(wa)
+        elif shape == 'diamond':                     # directly and through an included script
+            wd = wrapper('wd.bare', 'wd', [hot], rng.random() < 0.3)
+            order = [hot, wd] if rng.random() < 0.6 else [wd, hot]
+            out += inc(order[0])
+            between()
+            out += inc(order[1])
+        elif shape == 'jump-loop':
+            gm.nvar += 1
+            i, lt, ld = f'i{gm.nvar}', gm.label('LT'), gm.label('LD')
+            out += [f'{i} = {gm.wrap("0")}', f'jumpif ({gm.wrap("true")}) {lt}', f'{lt}:',
+                    f'jumpif ({gm.wrap(f"!({i} < {rng.randint(2, 4)})")}) {ld}']
+            if rng.random() < 0.5:
+                out.append('    ' + gm.mark())
+            out += inc(hot, pad='    ')
+            if rng.random() < 0.5:
+                out.append('    ' + gm.mark())
+            out += [f'    {i} = {gm.wrap(i + " + 1")}', f'jumpif ({gm.wrap("true")}) {lt}', f'{ld}:']
+        elif shape == 'while':
+            gm.nvar += 1
+            i = f'i{gm.nvar}'
+            out += [f'{i} = {gm.wrap("0")}', f'while {gm.wrap(f"{i} < {rng.randint(2, 4)}")}:']
+            if rng.random() < 0.5:
+                out.append('    ' + gm.mark())
+            out += inc(hot, pad='    ')
+            if rng.random() < 0.3:
+                out += [f'    if {gm.wrap(i + " == 1")}:'] + inc(other(), pad='        ') + ['    endif']
+            out += [f'    {i} = {gm.wrap(i + " + 1")}', 'endwhile']
+        elif shape == 'for':
+            gm.nvar += 1
+            arr = 'arrayNew(' + ', '.join(str(rng.randint(0, 3)) for _ in range(rng.randint(2, 4))) + ')'
+            out.append(f'for v{gm.nvar} in {gm.wrap(arr)}:')
+            out += inc(hot, pad='    ') if rng.random() < 0.7 else inc(hot, other(), pad='    ')
+            out += ['    ' + gm.mark(), 'endfor']
+        elif shape == 'function':                    # inside a function that is called repeatedly
+            head += [PRE, 'function fi(n):']
+            if rng.random() < 0.5:
+                head.append('    ' + gm.mark())
+            head += inc(hot, pad='    ') + [f'    return {gm.wrap("n + uc")}', 'endfunction']
+            for _ in range(rng.choice([2, 2, 3])):
+                out.append(f'r = {gm.wrap(f"fi({rng.randint(0, 3)})")}')
+                if rng.random() < 0.7:
+                    between()
+        elif shape == 'callback':                    # inside a predicate a library function calls back
+            head += [PRE, 'function fp(v):'] + inc(hot, pad='    ') + [f'    return {gm.wrap("v == " + str(rng.randint(0, 3)))}', 'endfunction']
+            arr = 'arrayNew(' + ', '.join(str(rng.randint(0, 3)) for _ in range(rng.randint(2, 4))) + ')'
+            pred = rng.choice(['fp', 'fp', 'systemPartial(fq, 1)'])
+            if 'fq' in pred:
+                head += [PRE, 'function fq(t, v):'] + inc(hot, pad='    ') + [f'    return {gm.wrap("v == t")}', 'endfunction']
+            out.append(f'r = {gm.wrap(f"arrayIndexOf({arr}, {pred})")}')
+            if rng.random() < 0.5:
+                out += inc(hot)
+        elif shape == 'recursion':
+            lx = gm.label('LX')
+            head += [PRE, 'function fr(n):'] + inc(hot, pad='    ') + [f'    jumpif ({gm.wrap("!(n > 0)")}) {lx}',
+                     f'        m = {gm.wrap("fr(n - 1)")}', f'    jumpif ({gm.wrap("true")}) {lx}', f'    {lx}:',
+                     f'    return {gm.wrap("n")}', 'endfunction']
+            out.append(f'r = {gm.wrap(f"fr({rng.randint(1, 3)})")}')
+        elif shape == 'same-statement':              # consecutive include lines are ONE include statement
+            out += inc(hot, other(), hot) if rng.random() < 0.5 else inc(hot, hot)
+            between()
+            out += inc(hot)
+        elif shape == 'tail-empty':                  # an include that starts no statement as the LAST thing the budget allows
+            empty = add_lib(f'u{len(libs) + 1}.bare', rng.random() < 0.6, True)
+            out += inc(hot)
+            between()
+            r = rng.random()
+            if r < 0.3:
+                out += inc(empty)
+            elif r < 0.55:
+                out += inc(hot, empty)                                    # the last script of a multi-script include statement
+            elif r < 0.8:
+                out += inc(wrapper('we.bare', 'we', [hot, empty] if rng.random() < 0.5 else [empty], True))
+            else:
+                out += inc(empty) + [gm.mark()]
+            break
+    if 'shape:tail-empty' not in kinds and rng.random() < 0.7:
+        between()
+    case = {'family': 'rinc', 'text': '\n'.join(head + out), 'files': files, 'globals': {'a': 0, 'b': 1, 'uc': 0}, 'nfun': None,
+            'premarks': not kinds & {'shape:while', 'shape:for'}, 'tags': ['rinc'] + sorted(kinds | gm.kinds)}
+    if prefix is not None:
+        case['systemPrefix'] = prefix
+    return case
+
+
+def rinc_directed():
+    """hand-built minimal members of the family (always run) + the call-back recursion a library function cannot leave by itself"""
+    util = "systemLog('u1')\nuc = if(systemLog('u2'), null, uc + 1)"
+    g = {'uc': 0}
+    cases = []
+
+    def add(tag, text, files, prefix='sys/'):
+        cases.append({'family': 'rinc', 'text': text, 'files': files, 'globals': dict(g), 'nfun': None, 'tags': ['rinc', 'directed', tag],
+                      'systemPrefix': prefix})
+    for prefix, d in [('sys/', 'sys/'), ('', '')]:
+        add('straight', "systemLog('m1')\ninclude <util.bare>\nsystemLog('m2')\nsystemLog('m3')\ninclude <util.bare>\nsystemLog('m4')",
+            {d + 'util.bare': util}, prefix)
+        add('diamond', "systemLog('m1')\ninclude <util.bare>\nsystemLog('m2')\ninclude 'a.bare'\nsystemLog('m3')\nsystemLog('m4')\nsystemLog('m5')",
+            {d + 'util.bare': util, 'a.bare': "systemLog('a1')\ninclude <util.bare>\nsystemLog('a2')"}, prefix)
+        add('wrappers', "systemLog('m1')\ninclude 'b.bare'\nsystemLog('m2')\nsystemLog('m3')\ninclude 'a.bare'\nsystemLog('m4')\nsystemLog('m5')",
+            {d + 'util.bare': util, 'a.bare': "systemLog('a1')\ninclude <util.bare>\nsystemLog('a2')",
+             'b.bare': "include <util.bare>\nsystemLog('b1')"}, prefix)
+        add('while', "ix = 0\nwhile ix < 4:\n    include <tick.bare>\n    ix = ix + 1\nendwhile\nsystemLog('m1')",
+            {d + 'tick.bare': "systemLog('tick')"}, prefix)
+        add('function', "function ff(n):\n    include <util.bare>\n    return n + uc\nendfunction\nr = ff(1)\nsystemLog('m1')\nr = ff(2)\n"
+            "r = arrayIndexOf(arrayNew(5, 6, 7), ff)\nsystemLog('m2')", {d + 'util.bare': util}, prefix)
+        add('lib-includes-lib', "include <v.bare>\nsystemLog('m1')\nsystemLog('m2')\ninclude <util.bare>\ninclude <v.bare>\nsystemLog('m3')",
+            {d + 'util.bare': util, d + 'v.bare': "systemLog('v1')\ninclude <util.bare>\nsystemLog('v2')"}, prefix)
+    add('plain-twice', "systemLog('m1')\ninclude 'tick.bare'\nsystemLog('m2')\ninclude 'tick.bare'\nsystemLog('m3')", {'tick.bare': "systemLog('tick')"}, None)
+    cases[-1].pop('systemPrefix')
+    notes = '# Nothing here yet\n\n# (placeholder for site-specific overrides)\n'
+    lib = "systemLog('lib 1')\nlibValue = 7\n"
+    for tag, text, files in [
+            ('comment-only-last', "systemLog('start')\ninclude 'lib.bare'\nsystemLog('mid')\ninclude 'notes.bare'\n", {'lib.bare': lib, 'notes.bare': notes}),
+            ('empty-middle', "systemLog('start')\ninclude 'empty.bare'\nsystemLog('end')\n", {'empty.bare': ''}),
+            ('nested-comment-only-last', "systemLog('start')\ninclude 'outer.bare'\n",
+             {'outer.bare': "systemLog('outer 1')\ninclude 'notes.bare'\n", 'notes.bare': notes}),
+            ('multi-include-last-empty', "systemLog('start')\ninclude 'lib.bare'\ninclude 'empty.bare'\n", {'lib.bare': lib, 'empty.bare': ''}),
+            ('system-empty-last-twice', "include <empty.bare>\nsystemLog('start')\ninclude <empty.bare>\n", {'sys/empty.bare': ''}),
+            ('only-empty-includes', "include <empty.bare>\ninclude 'notes.bare'\n", {'sys/empty.bare': '', 'notes.bare': notes})]:
+        add(tag, text, files)
+    cases.append({'family': 'hostrec', 'nomodel': True, 'limits': [0, 4, 5, 100], 'files': None, 'globals': {}, 'nfun': None,
+                  'text': "a = arrayNew()\np = systemPartial(arrayIndexOf, a)\narrayPush(a, p)\nr = arrayIndexOf(a, p)\nreturn r",
+                  'tags': ['directed', 'library-call-back-recursion-ended-by-the-host']})
+    return cases
+
+
 def gen_case(rng):
     gen = progen.Gen(rng, max_depth=rng.choice([2, 3, 4]))
     prog = gen.program()
@@ -451,6 +726,8 @@ def run_impl(model, case, limit, prep=None, reuse=True):
     options = {'globals': g, 'logFn': log_fn}
     if case['files'] is not None:
         options['fetchFn'] = fetch_fn(case['files'])
+    if case.get('systemPrefix') is not None:
+        options['systemPrefix'] = case['systemPrefix']
     out = {}
     try:
         if prep is not None:
@@ -473,7 +750,7 @@ def run_impl(model, case, limit, prep=None, reuse=True):
                 g.clear()
                 g.update(copy.deepcopy(case['globals']))
             if not reuse:
-                options = {k: v for k, v in options.items() if k in ('globals', 'logFn', 'fetchFn', 'debug')}
+                options = {k: v for k, v in options.items() if k in ('globals', 'logFn', 'fetchFn', 'debug', 'systemPrefix')}
             else:
                 if prep['copy']:
                     options = dict(options)
@@ -482,7 +759,7 @@ def run_impl(model, case, limit, prep=None, reuse=True):
         options.pop('maxStatements', None)
         if limit is not None:
             options['maxStatements'] = limit
-        probe[0] = case['family'] in ('fl', 'data', 'session')
+        probe[0] = case['family'] in FULLY
         out['result'] = progen.value_to_wire(c08.guarded(lambda: runtime.execute_script(model, options)), lib)
     except runtime.BareScriptRuntimeError as exc:
         out['error'] = str(exc)
@@ -501,12 +778,60 @@ def run_impl(model, case, limit, prep=None, reuse=True):
     return out, snaps
 
 
-class RefCounting(c08.RefStatements):
-    """documented statement semantics + includes, all on ONE statement counter owned by this interpreter"""
+def resolve_include(inc, base, system_prefix):
+    """<x> with a host systemPrefix: x in the directory of the prefix; otherwise x in the directory of the including file"""
+    url = inc['url']
+    if inc.get('system') and system_prefix is not None:
+        return system_prefix[:system_prefix.rfind('/') + 1] + url
+    if base is not None:
+        return base[:base.rfind('/') + 1] + url
+    return url
 
-    def __init__(self, options, max_statements, files):
+
+def static_count(case, statements=None, base=None, depth=0):
+    """Straight-line programs (expression statements and includes of straight-line files only, no call of a script function): the
+    number of statements an unlimited run starts is the number of statements of the script + those of every included script, per
+    include.  -> N, or None when the program is not of that kind."""
+    parser = fw.impl()['parser']
+    if statements is None:
+        statements = parser.parse_script(case['text'])['statements']
+    total = 0
+    for stmt in statements:
+        (kind, body), = stmt.items()
+        total += 1
+        if kind == 'include' and depth < 8:
+            for inc in body['includes']:
+                url = resolve_include(inc, base, case.get('systemPrefix'))
+                text = (case['files'] or {}).get(url)
+                if text is None:
+                    return None
+                try:
+                    sub = static_count(case, parser.parse_script(text)['statements'], url, depth + 1)
+                except parser.BareScriptParserError:
+                    return None
+                if sub is None:
+                    return None
+                total += sub
+        elif kind != 'expr':
+            return None
+    return total
+
+
+class RefCounting(c08.RefStatements):
+    """documented statement semantics + includes, all on ONE statement counter owned by this interpreter.
+    Include names: <x> with a host systemPrefix is the file x in the directory of the prefix; every other name is relative to the
+    directory of the file the RUNNING script came from (the main script: the name as written).  Only plain relative names are
+    generated (resolution proper is C17).  Every execution of an include statement fetches, parses and runs every script it names -
+    nothing is remembered from an earlier execution."""
+
+    def __init__(self, options, max_statements, files, system_prefix=None):
         super().__init__(options, max_statements)
         self.files = files or {}
+        self.system_prefix = system_prefix
+        self.base = None            # the file the running script came from (a function runs in the context of its caller)
+
+    def resolve(self, inc):
+        return resolve_include(inc, self.base, self.system_prefix)
 
     def run(self, statements, locals_):
         if not any('include' in s for s in statements):
@@ -525,15 +850,20 @@ class RefCounting(c08.RefStatements):
                 if self.max > 0 and self.count > self.max:
                     raise self.error(f'Exceeded maximum script statements ({self.max})')
                 for inc in body['includes']:
-                    text = self.files.get(inc['url'])
+                    url = self.resolve(inc)
+                    text = self.files.get(url)
                     if text is None:
-                        raise self.error(f'Include of "{inc["url"]}" failed')
+                        raise self.error(f'Include of "{url}" failed')
                     try:
                         script = self.mods['parser'].parse_script(text)
                     except self.mods['parser'].BareScriptParserError as exc:
                         raise self.mods['parser'].BareScriptParserError(exc.error, exc.line, exc.column_number, exc.line_number,
-                                                                        f'Included from "{inc["url"]}"')
-                    self.run(script['statements'], None)          # global scope; `return` ends only the included script
+                                                                        f'Included from "{url}"')
+                    saved, self.base = self.base, url
+                    try:
+                        self.run(script['statements'], None)      # global scope; `return` ends only the included script
+                    finally:
+                        self.base = saved
                 pc += 1
                 continue
             # one ordinary statement, through the base class on a one-statement view that keeps label scope
@@ -569,7 +899,7 @@ def run_reference(model, case, limit):
     for name, fn in library.SCRIPT_FUNCTIONS.items():
         g.setdefault(name, fn)
     options = {'globals': g, 'maxStatements': 0, 'logFn': log.append, 'statementCount': 0}
-    ref = RefCounting(options, limit, case['files'])
+    ref = RefCounting(options, limit, case['files'], case.get('systemPrefix'))
     out = {}
     try:
         out['result'] = progen.value_to_wire(ref.run(model['statements'], None), library.SCRIPT_FUNCTIONS)
@@ -585,11 +915,11 @@ def run_reference(model, case, limit):
     return out
 
 
-def limits_for(rng, n_statements, quick):
+def limits_for(rng, n_statements, quick, every_upto=None):
     """n_statements None = non-terminating (more than CAP statements)"""
     if n_statements is None:
         ls = {1, 2, 3, 5, 8, 21, 64, rng.randint(9, 200), rng.randint(200, 1500)}
-    elif n_statements <= (24 if quick else 40):
+    elif n_statements <= (every_upto or (24 if quick else 40)):
         ls = set(range(1, n_statements + 3))
     else:
         ls = {1, 2, 3, n_statements - 1, n_statements, n_statements + 1, n_statements + 2}
@@ -650,7 +980,30 @@ def budget_oracles(case, model, unl, unl_snaps, limit, out, snaps):
             ix = limit - case['nfun']             # the statement that did not start is the one that logs mark number ix
             if ix < len(unl_snaps) and json.dumps(out['globals']) != unl_snaps[ix]:
                 bad.append(('globals-at-abort', json.loads(unl_snaps[ix]), out['globals']))
+    # (1') the same count where include / function statements are announced by a log line of their own (family 'rinc')
+    if case.get('premarks'):
+        got = premark_count(out['log'])
+        if aborted:
+            ok = got == limit or (got == limit + 1 and out['log'][-1] == '>')      # the announced statement is the one that did not start
+        else:
+            ok = got == out['count'] and got <= limit
+        if not ok:
+            bad.append(('started-statements', {'started': limit if aborted else out['count'], 'limit': limit},
+                        {'started': got, 'log': len(out['log']), 'announced': got - len(out['log'])}))
     return bad
+
+
+def premark_count(log):
+    """started statements of a run whose statements all log first, include / function statements through the line '>' before them"""
+    return len(log) + sum(1 for line in log if line == '>')
+
+
+def static_bad(case, unl):
+    """straight-line program that completes under the cap: its counter is the static number of statements (see static_count)"""
+    if 'error' in unl or 'hostexc' in unl:
+        return None
+    want = static_count(case)
+    return None if want is None or want == unl['count'] else {'count': want}
 
 
 def started_at_cap(case, unl):
@@ -659,7 +1012,14 @@ def started_at_cap(case, unl):
         bound = 0 if case['family'] == 'session' else sum(1 for kv in unl['globals'] if kv[1] == {'f': 'script'})
         if len(unl['log']) + bound != unl['count']:
             return {'started': len(unl['log']) + bound, 'log': len(unl['log']), 'bound': bound}
+    if case.get('premarks') and 'error' not in unl and 'hostexc' not in unl and premark_count(unl['log']) != unl['count']:
+        return {'started': premark_count(unl['log']), 'log': len(unl['log']), 'announced': premark_count(unl['log']) - len(unl['log'])}
     return None
+
+
+def case_key(case):
+    """the canonical case (what a coverage record / a comparison is keyed by)"""
+    return [case['family'], case['text'], case['files']] + ([{'systemPrefix': case['systemPrefix']}] if 'systemPrefix' in case else [])
 
 
 def check_program(ctx, st, case, rng, driver):
@@ -676,24 +1036,32 @@ def check_program(ctx, st, case, rng, driver):
         nonterm = EXCEEDED.match(unl.get('error', '')) is not None
         total = None if nonterm else unl['count']
         # L = 0 (really unlimited) is only run for programs known to stop: the implementation must never be able to hang the check
-        limits = ([] if nonterm else [0]) + limits_for(rng, total, ctx.quick)
+        limits = ([] if nonterm else [0]) + limits_for(rng, total, ctx.quick, (60 if ctx.quick else 120) if case['family'] == 'rinc' else None)
+        if case.get('limits') and not nonterm:
+            limits = list(case['limits'])
         if not nonterm:
             bad = started_at_cap(case, unl)
             if bad is not None:
                 ctx.witness('started-statements', {'case': case, 'limit': CAP}, {'started': unl['count']}, bad)
+            bad = static_bad(case, unl)
+            if bad is not None:
+                ctx.witness('static-statement-count', {'case': case, 'limit': CAP}, bad, {'count': unl['count']})
         if unl.get('hostexc', '').startswith('Hang'):
             ctx.witness('run-stops-within-budget', {'case': case, 'limit': CAP}, f'at most {CAP} statements start', unl['hostexc'])
             return [], [], [], []
     wire_files = None
-    if driver and case['family'] not in ('data', 'session'):
+    if driver and case['family'] not in ('data', 'session') and not case.get('nomodel'):
         counter = [0]
         script = progen.canon_script(model, counter)
         wire_files = []
+        # the model host resolves every include to the name it is written with: its file map is the map by base name (the generated
+        # files of one case have different base names; resolution through systemPrefix / the including file is C17)
         for url, text in sorted((case['files'] or {}).items()):
+            name = url[url.rfind('/') + 1:] if 'systemPrefix' in case else url
             try:
-                wire_files.append([url, progen.canon_script(parser.parse_script(text), counter)])
+                wire_files.append([name, progen.canon_script(parser.parse_script(text), counter)])
             except parser.BareScriptParserError:
-                wire_files.append([url, 'broken'])
+                wire_files.append([name, 'broken'])
     for limit in limits:
         if c08.HANGS[0] >= 3:
             break
@@ -701,7 +1069,7 @@ def check_program(ctx, st, case, rng, driver):
         outs.append(out)
         out_snaps.append(snaps)
         tags = ['L=0' if limit == 0 else 'aborted' if EXCEEDED.match(out.get('error', '')) else 'error' if 'error' in out else 'completed']
-        st.case([case['family'], case['text'], case['files'], limit],
+        st.case(case_key(case) + [limit],
                 nontrivial=(limit > 0 and (nonterm or abs(limit - total) <= 2 or bool(EXCEEDED.match(out.get('error', ''))))),
                 tags=tags + ['family:' + case['family']] + (case['tags'] if limit == limits[-1] else []))
         bad = budget_oracles(case, model, unl, unl_snaps, limit, out, snaps if fully else None)
@@ -744,7 +1112,7 @@ def check_prep(ctx, st, case, model, rng, prep, main):
     pcase = case
     if not is_plain:
         if case['family'] in ('fl', 'data') or prep['debug']:
-            pcase = dict(case, nfun=None)      # script functions of earlier runs stay bound / debug lines in the log: no counting through the log
+            pcase = dict(case, nfun=None, premarks=False)      # script functions of earlier runs stay bound / debug lines in the log: no counting through the log
         unl, unl_snaps = run_impl(model, case, CAP, prep, reuse=False)
         if unl.get('hostexc', '').startswith('Hang'):
             ctx.witness('run-stops-within-budget', {'case': case, 'limit': CAP, 'prep': prep, 'reuse': False},
@@ -777,7 +1145,7 @@ def check_prep(ctx, st, case, model, rng, prep, main):
             found += [(n, e, a, False) for n, e, a in budget_oracles(pcase, model, unl, unl_snaps, eff, fresh, fresh_snaps if fully else None)]
         out, snaps = run_impl(model, case, limit, prep, reuse=True)
         aborted = bool(EXCEEDED.match(out.get('error', '')))
-        st.case([case['family'], case['text'], case['files'], limit, prep],
+        st.case(case_key(case) + [limit, prep],
                 nontrivial=nonterm or aborted or limit is None or abs(eff - total) <= 2 or eff >= total,
                 tags=tags + ['opt:' + ('no-maxStatements-key' if limit is None else 'L=0' if limit == 0 else 'aborted' if aborted else 'not-aborted'),
                              'family:' + case['family']] + (case['tags'] if case['family'] == 'session' and limit == chosen[-1] else []))
@@ -806,8 +1174,10 @@ def load_corpus():
 
 
 def make_cases(rng, n):
-    cases = load_corpus()
+    cases = load_corpus() + rinc_directed()
     for ix in range(n):
+        if ix % 4 == 3:
+            cases.append(rinc_case(rng, shapes=[RINC_SHAPES[(ix // 4) % len(RINC_SHAPES)]] if ix % 8 == 3 else None))
         r = ix % 10
         if r < 3:
             cases.append(gen_case(rng))
@@ -845,7 +1215,17 @@ def stream_budget(ctx, n, driver=True, name='budget'):
                     'new one); reference = the same configuration on a brand-new options dict; oracles: all of the above against that '
                     'reference + the outcome (result, error, log, globals, snapshots, statementCount) is the reference outcome; compared '
                     'with the Lean answer for the same program and limit (C09.own_budget: execute ignores the counter it is given); '
-                    'non-trivial = L within 2 of N, or the run is aborted, or (runs with a history) L >= N / no limit')
+                    'non-trivial = L within 2 of N, or the run is aborted, or (runs with a history) L >= N / no limit; '
+                    'REPEATED INCLUDES (family rinc, +25% cases and 20 hand-built ones): the SAME include - a system include <x> under a '
+                    'host systemPrefix (absent / empty / directory / file in a directory) or a quoted include - executed 2+ times in one run '
+                    'with statements in between: straight-line, from two different included scripts, directly and through an included '
+                    'script (diamond; libraries that include libraries), inside jump-level / while / for loops, inside functions called '
+                    'repeatedly, inside call-back predicates (also through systemPartial) and recursive functions, twice in ONE include '
+                    'statement; included scripts that are empty / comment-only at the end of the run, nested, or last in a multi-script '
+                    'include statement; every L in 1..N+2 for N <= 60 (thorough 120) and L = 0; extra oracles: started statements = log '
+                    'lines + announced include/function statements (every such statement is preceded by a log statement), static '
+                    'statement count of straight-line programs; a library call-back recursion that starts no statement (implementation '
+                    'only, limits 0, 4, 5, 100, must stop)')
     lib = fw.impl()['library']
     if not lib.DEFAULT_MAX_STATEMENTS > 0:
         ctx.witness('default-limit-positive', 'library.DEFAULT_MAX_STATEMENTS', '> 0', lib.DEFAULT_MAX_STATEMENTS)
@@ -867,13 +1247,13 @@ def stream_budget(ctx, n, driver=True, name='budget'):
                 continue
             for limit, out, resp in zip(limits, outs, resps[pos:pos + nreq]):
                 if 'hostexc' not in out and '<cycle>' not in json.dumps(out):
-                    ctx.compare(name, [case['family'], case['text'], case['files'], limit], progen.canon_neg_zero(out),
+                    ctx.compare(name, case_key(case) + [limit], progen.canon_neg_zero(out),
                                 progen.canon_neg_zero(progen.canon_model_out(resp)))
             # Lean `execute` sets the counter of whatever state it is given to 0 (C09.own_budget): the run on an options object with
             # a history is compared with the same model answer
             for ix, limit, prep, out in extra:
                 if ix < nreq and 'hostexc' not in out and '<cycle>' not in json.dumps(out):
-                    ctx.compare(name, [case['family'], case['text'], case['files'], limit, prep], progen.canon_neg_zero(out),
+                    ctx.compare(name, case_key(case) + [limit, prep], progen.canon_neg_zero(out),
                                 progen.canon_neg_zero(progen.canon_model_out(resps[pos + ix])))
             pos += nreq
 
@@ -906,7 +1286,7 @@ def replay(witness):
         pcase, eff = case, limit
     else:
         is_plain = plain(prep) and case['family'] != 'session'
-        pcase = dict(case, nfun=None) if not is_plain and (case['family'] in ('fl', 'data') or prep['debug']) else case
+        pcase = dict(case, nfun=None, premarks=False) if not is_plain and (case['family'] in ('fl', 'data') or prep['debug']) else case
         eff = 0 if limit is None else limit
         unl, unl_snaps = run_impl(model, case, CAP, prep, reuse=False)
         fresh, fresh_snaps = run_impl(model, case, limit, prep, reuse=False)
@@ -918,6 +1298,8 @@ def replay(witness):
     if limit == CAP:
         if started_at_cap(pcase, unl) is not None:
             bad.append(('started-statements', None, None))
+        if prep is None and static_bad(case, unl) is not None:
+            bad.append(('static-statement-count', None, None))
     else:
         bad += budget_oracles(pcase, model, unl, unl_snaps, eff, out, snaps if fully else None)
     if case['family'] not in ('data', 'session') and 'hostexc' not in out and (prep is None or plain(prep)):
@@ -935,16 +1317,30 @@ LEVEL_TEXT = ('Theorems about the Lean mirror of the runtime (one counter in the
               'N statements: L=0 or L>=N gives the identical outcome, 0<L<N gives the budget error at count L+1, and the world at the '
               'abort is below the unlimited final world for every preorder the host respects (instantiated: the log of the concrete '
               'host is a prefix); a result reached with some fuel is the result for every larger fuel, and the limited run never '
-              'needs more fuel than the unlimited one. Tied to the code by differential correspondence over generated programs (loops, '
+              'needs more fuel than the unlimited one. "No script can run forever" (C09Term.lean): for L>0 and every host whose '
+              'call-backs are well-founded (HostWF: a value/world invariant preserved by all host operations and a call rank that '
+              'decreases along call-backs; RankWF without invariant) every run from an admissible state - execute, a statement list from '
+              'any index/locals/counter, a call, an include statement - ends with some fuel and with every larger one '
+              '(no_infinite_run, _execM, _call, _includes, _result); instantiated for the driver host and for the HostLib host from '
+              'every start state passing a decidable check (no systemPartial/partials, or no arrayIndexOf function value and no '
+              'dangling partial; Lib never fabricates function values: LibParam.lib_q); the hypothesis is necessary: a self-calling '
+              'library function, and on BOTH concrete hosts the partial application systemPartial(arrayIndexOf, a) stored in a, run '
+              'out of fuel for every fuel (Counter.*_runs_forever, *_not_wf). Tied to the code by differential correspondence over generated programs (loops, '
               'recursion, call-backs, nested includes) x every limit in 1..N+2 / sampled limits / 0, and by implementation oracles: '
               'exact abort text and count, identity above N, log and global-snapshot prefixes, started statements counted through the '
               'log of fully-logged programs (also through dataFilter/dataCalculatedField/dataJoin call-backs), independent '
-              'reference interpreter with its own counter. A run does not depend on the counter the state holds when it starts '
+              'reference interpreter with its own counter; the same include (system includes under a host systemPrefix, quoted includes, '
+              'includes of includes) executed repeatedly in one run - straight-line, from different scripts, in loops, in functions '
+              'called repeatedly and call-backs - and empty / comment-only included scripts at the budget boundary, with started '
+              'statements counted through the log and statically. A run does not depend on the counter the state holds when it starts '
               '(own_budget, own_budget_session), tied to the code by running every program on options objects with a history (earlier '
               'runs on the same dict - completed, aborted, failed, other limits -, copied dicts, host-provided statementCount, kept or '
               'reset globals, debug, no maxStatements key, two-script sessions whose second script calls the functions of the first): '
               'each run must satisfy all oracles against, and be identical to, the same run on a brand-new options dict.')
-LEVEL_NOTE = ('no_infinite_run is partial: statement starts are bounded by L+1 for all hosts, but "some fuel suffices" needs a '
-              'well-foundedness hypothesis on host library trees that the abstract model does not have (documented in C09.lean). The '
+LEVEL_NOTE = ('no_infinite_run is proved under the explicit host hypothesis HostWF (C09Term.lean) and, for the two concrete hosts, from '
+              'the start states passing implStateOk/libStateOk; unconditionally it is false in the model (formal counterexamples on '
+              'HostImpl and HostLib: a partial application of arrayIndexOf stored in its own array recurses through call-backs without '
+              'starting a statement; CPython ends that run with RecursionError -> null, the model has no recursion limit). '
+              'no_infinite_run_partial (statement starts bounded by L+1) holds for all hosts and states. The '
               'prefix property for GLOBALS and the data-function call-backs are checked on the implementation only. Trusted: Lean '
               'kernel, correspondence harness, its reference interpreter and generators. Python recursion limit not modelled.')
